@@ -25,6 +25,7 @@ typedef struct {
   sv_t path;
   _Bool has_search; sv_t search;   /* without '?' */
   _Bool has_hash; sv_t hash;       /* without '#' */
+  _Bool pending_at;                /* parser-only state: credentials written, the '@' and the host not yet (buffer ends there) */
 } agg_view_t;
 
 static inline _Bool wf_no_byte(const char *p, size_t a, size_t b, char c1, char c2, char c3, char c4, char c5) {
@@ -49,6 +50,7 @@ static inline _Bool agg_wf_view(const struct url_aggregator *u, agg_view_t *v) {
   v->scheme = (sv_t){b->d, pe - 1};
   size_t ue = c->username_end, hs = c->host_start, he = c->host_end, ps = c->pathname_start;
   if (!(pe <= ue && ue <= hs && hs <= he && he <= ps && ps <= n)) return 0;
+  v->pending_at = 0;
   v->has_authority = (n >= pe + 2 && b->d[pe] == '/' && b->d[pe + 1] == '/' && ue >= pe + 2);
   v->has_password = 0; v->password = (sv_t){b->d, 0}; v->username = (sv_t){b->d, 0};
   if (v->has_authority) {
@@ -61,7 +63,14 @@ static inline _Bool agg_wf_view(const struct url_aggregator *u, agg_view_t *v) {
       if (!wf_no_byte(b->d, ue + 1, hs, ':', '@', '/', '?', '#')) return 0;
     }
     _Bool cred = hs > pe + 2;
-    if (cred) {
+    v->pending_at = 0;
+    if (cred && hs == n) {
+      /* while the parser is still inside the authority state the credentials have been appended but neither the '@'
+       * nor the host exist yet; update_base_hostname() adds the '@'.  Nothing follows the credentials. */
+      if (!(he == hs && ps == hs)) return 0;
+      v->pending_at = 1;
+      v->host = (sv_t){b->d + hs, 0};
+    } else if (cred) {
       if (hs >= n || b->d[hs] != '@') return 0;     /* '@' terminates the credentials */
       if (he < hs + 1) return 0;
       v->host = (sv_t){b->d + hs + 1, he - (hs + 1)};
@@ -72,7 +81,7 @@ static inline _Bool agg_wf_view(const struct url_aggregator *u, agg_view_t *v) {
     /* a ':' in the host only inside brackets (IPv6): a host that does not start with '[' has no ':' */
     if (!(v->host.n > 0 && v->host.p[0] == '[') && !wf_no_byte(v->host.p, 0, v->host.n, ':', ':', ':', ':', ':')) return 0;
     /* credentials or port require a non-empty host (URL Standard: cannot-have-a-username/password/port) */
-    if ((cred || c->port != OMITTED) && v->host.n == 0) return 0;
+    if ((cred || c->port != OMITTED) && v->host.n == 0 && !v->pending_at) return 0;
   } else {
     if (!(ue == pe && hs == pe && he == pe)) return 0;
     v->host = (sv_t){b->d + pe, 0};
